@@ -4,6 +4,7 @@ CONSTANTS
   SampleSize = 0
   NoTypeCheck = FALSE
   ImportOnlyNotFound = FALSE
+  MroRegistryLookup = FALSE
   NoClassCheck = TRUE
 SPECIFICATION Spec
 INVARIANT OnlyDocumented
